@@ -114,13 +114,15 @@ CHECKS['C09'] = {
     'design': 'DESIGN.md section 3 C09',
 }
 CHECKS['C10'] = {
-    'technique': 'machine-checked proof in Coq (single-bound invariant of the req/rep router LTS) + trace-acceptor correspondence and rejected-replier trace predicates',
+    'technique': 'machine-checked proof in Coq (single-bound, told-then-closed and leaves-only-by-departure invariants of the req/rep router LTS) + trace-acceptor correspondence and rejected-replier trace predicates',
     'text': ("PROVED for every accepted trace: requests are only handed to a replier that was bound; a refused replier is never bound and never receives a request; the current "
              "replier is a bound one; the rejection code is REPLIER_ALREADY_BOUND (5). CHECKED on every implementation trace (predicates + exact acceptance): the sink of a refused "
              "replier sees poll_ready*, the error frame, poll_close* and nothing else; by the end of a wake-driven drained history every queued replier was either bound or told "
              "and closed; the replier receiving requests never flips back; re-binding after the bound replier's stream ends is part of the accepted model behaviour. PROVED as well: in every "
              "reachable state every refused replier is still being dealt with (rejection in the one-slot buffer, or the router at one of the three calls on its sink), or poll_close has "
-             "completed on its sink - which only happens on a sink that had accepted the replier-already-bound frame - or its sink failed before the frame could be written."),
+             "completed on its sink - which only happens on a sink that had accepted the replier-already-bound frame - or its sink failed before the frame could be written. PROVED: on every "
+             "accepted trace every replier that was ever bound is still the bound one or departed in that trace (its stream ended, or its sink failed on poll_ready / poll_flush): neither another "
+             "replier's registration, nor a rejected replier's failing sink, nor a request its own sink refuses unbinds it; the same is a predicate on implementation traces (obs_c10_rebind_justified)."),
     'note': ROUTER_NOTE,
     'design': 'DESIGN.md section 3 C10',
 }
